@@ -763,9 +763,11 @@ def select__element_kind_test(self: XPathFunction, context: ta.ContextType = Non
                 yield item
     else:
         for item in self[0].select(context):
-            if len(self) == 1:
-                yield cast(ElementNode, item)  # Already selected by sequence type test
-            elif isinstance(item, ElementNode):
+            if not isinstance(item, ElementNode):
+                continue  # the name test matches also attributes on attribute/self axes
+            elif len(self) == 1:
+                yield item
+            else:
                 type_annotation = self[1].name
                 if item.nilled:
                     if self[1].occurrence in ('*', '?'):
